@@ -440,7 +440,7 @@ def match_known(pid, signature, known):
 
 
 def write_replay(pid, v):
-    d = os.path.join(VERIF, "replays", pid)
+    d = os.path.join(os.environ.get("VERIF_OUT", VERIF), "replays", pid)
     os.makedirs(d, exist_ok=True)
     h = hashlib.sha1(json.dumps(v["signature"], sort_keys=True)
                      .encode()).hexdigest()[:12]
@@ -452,7 +452,7 @@ def write_replay(pid, v):
 
 def write_evidence(pid, tier, seed, coverage, wall, violations,
                    assumptions):
-    d = os.path.join(VERIF, "evidence")
+    d = os.path.join(os.environ.get("VERIF_OUT", VERIF), "evidence")
     os.makedirs(d, exist_ok=True)
     ev = {
         "property_id": pid,
